@@ -233,12 +233,40 @@ def check_lemmas():
         return dict(file="lemmas/SigmaRules.lean", status="not-run (%s)" % type(e).__name__, secs=round(time.time() - t0, 1))
 
 
+def _xcheck_summary(xdir):
+    """aggregate the second-solver results written by the workers (thorough tier)"""
+    import collections
+
+    by = collections.Counter()
+    n = 0
+    disagreements = []
+    for f in glob.glob(os.path.join(xdir, "results.*.jsonl")):
+        for line in open(f):
+            rec = json.loads(line)
+            n += 1
+            for k, v in rec["results"].items():
+                by["%s:%s" % (k, v)] += 1
+            if "sat" in rec["results"].values():
+                disagreements.append(dict(obligation=rec["obligation"], results=rec["results"], smt2=rec.get("smt2")))
+    return dict(sampled_unsat_queries=n, results=dict(by), disagreements=disagreements,
+                note="a seeded 1-in-%s sample of the queries z3 5.1 reported unsat, re-run on cvc5 1.0.3 and z3 4.8.12 (8 s each); "
+                     "timeouts / unknown are not disagreements" % os.environ.get("PVC_XCHECK_EVERY", "6"))
+
+
 def check_property(prop, tier, seed, jobs):
     t0 = time.time()
     tasks = tasks_for(prop)
     if not tasks:
         print("no contracts registered for %s" % prop)
         return 3
+    xdir = None
+    if tier == "thorough":
+        import shutil
+
+        xdir = os.path.join(ROOT, "scratch", "xcheck", prop)
+        shutil.rmtree(xdir, ignore_errors=True)
+        os.makedirs(xdir, exist_ok=True)
+        os.environ["PVC_XCHECK"] = xdir
     args = [(ci, gi, tier, seed) for ci, gi in tasks]
     if jobs > 1 and len(args) > 1:
         ctxm = mp.get_context("fork")
@@ -335,6 +363,10 @@ def check_property(prop, tier, seed, jobs):
     if str(lemmas.get("status", "")).startswith(("FAILED", "REJECTED")):
         print("CHECKER-CRASH lemmas/SigmaRules.lean: %s" % lemmas["status"])
         rc = rc or 3
+    xsum = _xcheck_summary(xdir) if xdir else dict(note="second-solver cross-check runs in the thorough tier only")
+    for dis in xsum.get("disagreements", []):
+        print("CHECKER-CRASH solver disagreement on %s: %s (query kept at %s)" % (dis["obligation"], dis["results"], dis["smt2"]))
+        rc = rc or 3
     conform_runs = sum((r.get("conform") or {}).get("runs", 0) for r in results)
     wall = time.time() - t0
     from contracts.props import CLAIMS
@@ -364,6 +396,7 @@ def check_property(prop, tier, seed, jobs):
             known_findings_printed=sorted(set(h.get("what") for h, _, _ in known_hits)),
             obligations_refuted_by_known_findings=sorted(set(known_refuted)),
             sigma_lemmas=lemmas,
+            second_solver_cross_check=xsum,
             undecided=[dict(function=r["contract"], cfg=r["cfg"], **{k: str(v)[:300] for k, v in u.items()}) for r, u in undecided][:50],
         ),
         assumptions=sorted(set(a for c in load_contracts() if prop in c.props for a in c.assumptions())) + ASSUMPTIONS_GLOBAL,
